@@ -327,7 +327,6 @@ class Rule(
         return replace(
             configuration,
             rule_object_anything=False,
-            modules_to_check=modules_to_check_without_parent_and_submodule_combinations,
             modules_to_check_against=modules_to_check_without_parent_and_submodule_combinations,
             except_present=True,
         )
